@@ -92,6 +92,7 @@ def runKern3 (kv : List (String × String)) : String := Id.run do
     | "transpose33d" => some (transpose33d (if br == .avx512 then 8 else if br == .avx then 4 else 2))
     | "unary4f" => some unary4f | "unary4d" => some unary4d
     | "transpose44f" => some (transpose44f (br == .avx512))
+    | "dyadic33f" => some (dyadic33f br) | "dyadic33d" => some (dyadic33d br) | "dyadic22f" => some dyadic22f
     | "matmul222f" => some matmul222f | "matmul444f" => some matmul444f
     | _ => none
   let some k := k | return "bad-op"
